@@ -316,54 +316,41 @@ def rule_increment(rep, m):
 
 
 def rule_helpers(rep, m):
+    """D3, decided by interpreting the helper's IR over bit expressions
+    (av/affine.py): the counter / the nonce bytes are symbols, the length is a
+    constant per case, and the 16 stored bytes are compared with the documented
+    layout - independent of how the helper is written (inline copies, shared
+    sub-helpers, loops).  A helper the interpreter cannot follow is unproved."""
+    from .affine import Machine, Unsupported, const_bits
+    from .sponge import cbytes, sym_bytes
+    from . import affine
     rid = "C14.D3"
     rep.rule(rid, "set_counter / set_nonce byte layout")
     f = m.funcs.get("ascon_aead_set_counter")
     if f is None or f.decl:
         raise repo.AnalysisBroken("ascon_aead_set_counter not defined")
-    R = ptr.resolver(f)
-    npub, n = f.params[0], f.params[1]
-    img = {}
-    for i in f.insts():
-        if i.op != "store":
-            continue
-        pv = R.resolve(i.ops[1])
-        if pv.single() != ("param", npub) or pv.offset is None or pv.variable:
-            continue
-        c = ir.const_int(i.ops[0])
-        if c is not None:
-            for k in range(i.d["sz"]):
-                img[pv.offset + k] = ("const", (c >> (8 * k)) & 0xff)
-            continue
-        # value = trunc(lshr n, s) or trunc n, or bswap(n)
-        v = i.ops[0]
-        d = f.defs.get(v) if ir.is_local(v) else None
-        sh = 0
-        if d is not None and d.op == "trunc":
-            v = d.ops[0]
-            d = f.defs.get(v) if ir.is_local(v) else None
-        if d is not None and d.op == "lshr" and ir.const_int(d.ops[1]) is not None:
-            sh = ir.const_int(d.ops[1])
-            v = d.ops[0]
-            d = f.defs.get(v) if ir.is_local(v) else None
-        if d is not None and d.op == "call" and (d.callee or "").startswith("llvm.bswap") and i.d["sz"] == 8 and d.ops[0] == n:
-            for k in range(8):
-                img[pv.offset + k] = ("nbyte", 7 - k)       # big-endian
-            continue
-        if v == n and sh % 8 == 0:
-            for k in range(i.d["sz"]):
-                img[pv.offset + k] = ("nbyte", sh // 8 + k)
+    try:
+        mc = Machine(m)
+        buf = mc.new_obj("npub", 16, symbolic=True)
+        n = affine.sym_bits("n", 64) if hasattr(affine, "sym_bits") else None
+        if n is None:
+            cnt = mc.new_obj("n", 8, symbolic=True)
+            n = tuple(mc.load(cnt, 8))           # 64 bits, little-endian bit order of the machine
+        mc.call("ascon_aead_set_counter", [buf, n])
+        got = tuple(mc.load(buf, 16))
+        # expected: 8 zero bytes, then the counter most significant byte first
+        want = list(cbytes(bytes(8)))
+        for k in range(8):
+            want += list(n[8 * (7 - k):8 * (7 - k) + 8])
+        if got != tuple(want):
+            diff = [k for k in range(16) if got[8 * k:8 * k + 8] != tuple(want[8 * k:8 * k + 8])]
+            rep.violation(rid, "set_counter:layout", f.src,
+                          "ascon_aead_set_counter does not store zeros in bytes 0..7 and the counter big-endian in bytes "
+                          "8..15: nonce byte(s) %s differ for some counter value" % diff)
         else:
-            img[pv.offset] = ("other", None)
-    want = {k: ("const", 0) for k in range(8)}
-    want.update({8 + k: ("nbyte", 7 - k) for k in range(8)})
-    if img != want:
-        diff = [k for k in range(16) if img.get(k) != want[k]]
-        rep.violation(rid, "set_counter:layout", f.src,
-                      "ascon_aead_set_counter stores %s at nonce byte(s) %s; expected zeros in bytes 0..7 and the counter "
-                      "big-endian in bytes 8..15" % ([img.get(k) for k in diff], diff))
-    else:
-        rep.instance(rid, 1, {"function": "ascon_aead_set_counter", "layout": "0^8 || BE64(n)"})
+            rep.instance(rid, 1, {"function": "ascon_aead_set_counter", "layout": "0^8 || BE64(n)"})
+    except Unsupported as e:
+        rep.unproved_item(rid, "ascon_aead_set_counter: %s" % e)
     # C++ set_nonce
     lay = effects.Layouts(m)
     nset = 0
@@ -379,84 +366,38 @@ def rule_helpers(rep, m):
 
 
 def _check_set_nonce(rep, rid, m, g, cls, lay):
-    R = ptr.resolver(g)
-    src, ln = g.params[1], g.params[2]
+    from .affine import Machine, Unsupported, const_bits
+    from .sponge import cbytes, sym_bytes
     inst = "%s::set_nonce" % cls
-    cps = [c for c in g.insts() if c.op == "call" and ptr.is_memcpy(c)]
-    sets = [c for c in g.insts() if c.op == "call" and ptr.is_memset(c)]
-    long_ok = short_fill = short_copy = False
-    nonce_off = None
     sn = effects.Layouts.pointee_struct(g.param_ty[0])
+    nonce_off = None
     if sn:
         for (off, size, key, ty) in lay.leaves(sn):
             if "nonce" in lay.member_name(sn, off) and size == 16:
                 nonce_off = off
+    size = (m.structs.get(sn) or {}).get("size") if sn else None
+    if nonce_off is None or not size:
+        raise repo.AnalysisBroken("%s: no 16-byte nonce member found in %s" % (rid, sn))
+    try:
+        for ln in (0, 1, 7, 15, 16, 17, 24, 40):
+            mc = Machine(m)
+            obj = mc.new_obj("this", size, symbolic=True)
+            nb = mc.new_obj("N", max(ln, 1), symbolic=True)
+            mc.call(g.name, [obj, nb, const_bits(ln, 64)])
+            got = tuple(mc.load(affine_ptr(obj, nonce_off), 16))
+            N = sym_bytes("N", ln)
+            want = tuple(N[:128]) if ln >= 16 else tuple(cbytes(bytes(16 - ln))) + tuple(N)
+            if got != want:
+                diff = [k for k in range(16) if got[8 * k:8 * k + 8] != want[8 * k:8 * k + 8]]
+                rep.violation(rid, inst + ":layout", g.src,
+                              "%s with a nonce of %d byte(s) does not store %s: stored nonce byte(s) %s differ" % (
+                                  inst, ln, "its first 16 bytes" if ln >= 16 else "%d zero byte(s) followed by the nonce" % (16 - ln), diff))
+                return
+        rep.instance(rid, 1, {"method": inst, "lengths": [0, 1, 7, 15, 16, 17, 24, 40]})
+    except Unsupported as e:
+        rep.unproved_item(rid, "%s: %s" % (inst, e))
 
-    def linear(v, depth=0):
-        """integer value as const + sum coeff*value"""
-        c = ir.const_int(v)
-        if c is not None:
-            return c, {}
-        d = g.defs.get(v) if ir.is_local(v) else None
-        if d is not None and depth < 6 and d.op in ("add", "sub"):
-            c1, t1 = linear(d.ops[0], depth + 1)
-            c2, t2 = linear(d.ops[1], depth + 1)
-            sgn = 1 if d.op == "add" else -1
-            t = dict(t1)
-            for k, x in t2.items():
-                t[k] = t.get(k, 0) + sgn * x
-            return c1 + sgn * c2, {k: x for k, x in t.items() if x}
-        return 0, {v: 1}
 
-    def is_16_minus_len(v):
-        return linear(v) == (16, {ln: -1})
-
-    def ptr_linear(p, depth=0):
-        """pointer as (base value, const bytes, terms)"""
-        d = g.defs.get(p) if ir.is_local(p) else None
-        if d is None or depth > 6:
-            return p, 0, {}
-        if d.op == "bitcast":
-            return ptr_linear(d.ops[0], depth + 1)
-        if d.op == "getelementptr":
-            base, c0, t0 = ptr_linear(d.ops[0], depth + 1)
-            c0 += d.d["coff"]
-            t = dict(t0)
-            for stride, val in d.d["terms"]:
-                cc, tt = linear(val)
-                c0 += stride * cc
-                for k, x in tt.items():
-                    t[k] = t.get(k, 0) + stride * x
-            return base, c0, {k: x for k, x in t.items() if x}
-        return p, 0, {}
-    for c in cps:
-        dst = R.resolve(c.ops[0])
-        nm = _member(m, g, dst, lay) if dst.offset is not None else None
-        s = R.resolve(c.ops[1])
-        if s.single() != ("param", src):
-            continue
-        if ir.const_int(c.ops[2]) == 16 and nm and "nonce" in nm and not dst.variable and s.offset == 0:
-            long_ok = True
-        elif c.ops[2] == ln and dst.variable:
-            base, cst, terms = ptr_linear(c.ops[0])
-            if base == g.params[0] and terms == {ln: -1} and nonce_off is not None and cst == nonce_off + 16:
-                short_copy = True
-    for c in sets:
-        dst = R.resolve(c.ops[0])
-        nm = _member(m, g, dst, lay) if dst.offset is not None else None
-        if nm and "nonce" in nm and not dst.variable and ir.const_int(c.ops[1]) == 0 and is_16_minus_len(c.ops[2]):
-            short_fill = True
-    # the long branch is selected by len >= 16
-    guard = False
-    for i in g.insts():
-        if i.op == "icmp" and i.ops[0] == ln and ir.const_int(i.ops[1]) in (16, 15):
-            k = ir.const_int(i.ops[1])
-            if (i.d["pred"], k) in (("uge", 16), ("ugt", 15), ("ult", 16), ("ule", 15)):
-                guard = True
-    if long_ok and short_fill and short_copy and guard:
-        rep.instance(rid, 1, {"method": inst, "long": "first 16 bytes", "short": "zero-fill 16-len, copy len at 16-len"})
-    else:
-        rep.violation(rid, inst + ":layout", g.src,
-                      "%s does not have the documented shape (len >= 16 guard: %s; copy of the first 16 bytes: %s; "
-                      "zero-fill of 16-len leading bytes: %s; copy of len bytes to offset 16-len: %s)" % (
-                          inst, guard, long_ok, short_fill, short_copy))
+def affine_ptr(p, off):
+    from .affine import Ptr
+    return Ptr(p.obj, p.off + off) if hasattr(p, "off") else Ptr(p.obj, off)
